@@ -388,7 +388,7 @@ theorem afterRecycle_inv {O : Key → Prop} {A : String → Prop} (sk : Key) (d 
   intro s s' hp h
   replace h : s.afterRecycle sk d n = .ok s' := h
   unfold KState.afterRecycle at h
-  have hp2 : Inv O All A (s.modify sk fun n => { n with need := d.need, shell := d.shell, holding := 0 }) :=
+  have hp2 : Inv O All A (s.modify sk fun n => { n with need := d.need, shell := d.shell }) :=
     inv_modify_core _ _ (fun _ => rfl) hp
   split at h
   · exact Inv.of_soft (fun s0 => markStepPending'_soft sk) _ s' hp2 h
